@@ -135,7 +135,9 @@ func genMonth(t *rapid.T) string {
 }
 
 func genNumber(t *rapid.T) string {
-	switch rapid.IntRange(0, 9).Draw(t, "numForm") {
+	switch rapid.IntRange(0, 10).Draw(t, "numForm") {
+	case 10:
+		return genBigNumber(t, -1)
 	case 0, 1, 2:
 		return rapid.SampledFrom(numberPool).Draw(t, "num")
 	case 3, 4:
@@ -180,6 +182,107 @@ func genNumber(t *rapid.T) string {
 	default:
 		return rapid.SampledFrom([]string{"9007199254740992", "9007199254740993", "9007199254740994", "18446744073709551616", "0.1", "0.10", "0.30000000000000004", "0.3"}).Draw(t, "edge")
 	}
+}
+
+// Integers beyond 2^53, where neighbouring integers round to ONE float64: a
+// comparator that decides some pairs exactly (as integers) and others after
+// rounding is free to close a cycle. One family = integers that are a few units
+// apart; every member comes plain and spelled with a fraction / an exponent.
+var bigIntFamilies = [][]string{
+	{"9007199254740992", "9007199254740993", "9007199254740994", "9007199254740995", "9007199254740991"},
+	{"9223372036854775807", "9223372036854775806", "9223372036854775805", "9223372036854775808"},
+	{"1000000000000000000", "1000000000000000001", "1000000000000000002", "999999999999999999"},
+	{"4611686018427387904", "4611686018427387905", "4611686018427387903"},
+	{"18014398509481984", "18014398509481985", "18014398509481986", "18014398509481987"},
+	{"123456789012345678", "123456789012345679", "123456789012345680"},
+}
+
+const bigForms = 7
+
+// spellBig: one spelling of the integer base (decimal digits), negated or not.
+func spellBig(base string, neg bool, form int) string {
+	sign := ""
+	if neg {
+		sign = "-"
+	}
+	switch form {
+	case 1:
+		return sign + base + ".0"
+	case 2:
+		return sign + base + "e0"
+	case 3:
+		if !neg {
+			return "+" + base
+		}
+		return sign + base + ".00"
+	case 4:
+		// mantissa and exponent: 1e+18, 9.007199254740993e+15
+		m := strings.TrimRight(base[1:], "0")
+		if m != "" {
+			m = "." + m
+		}
+		return fmt.Sprintf("%s%s%se+%d", sign, base[:1], m, len(base)-1)
+	case 5:
+		return sign + "0" + base
+	case 6:
+		return sign + base + "0e-1"
+	}
+	return sign + base
+}
+
+func genBigNumber(t *rapid.T, family int) string {
+	if family < 0 {
+		family = rapid.IntRange(0, len(bigIntFamilies)-1).Draw(t, "bigFamily")
+	}
+	base := rapid.SampledFrom(bigIntFamilies[family]).Draw(t, "bigBase")
+	neg := rapid.Bool().Draw(t, "bigNeg")
+	form := rapid.SampledFrom([]int{0, 0, 0, 1, 1, 2, 3, 4, 5, 6}).Draw(t, "bigForm")
+	return spellBig(base, neg, form)
+}
+
+// bigNumberPool: the enumerated pool of the `axioms` sub-property.
+func bigNumberPool() []string {
+	var out []string
+	seen := map[string]bool{}
+	add := func(k string) {
+		if !seen[k] {
+			seen[k] = true
+			out = append(out, k)
+		}
+	}
+	for _, neg := range []bool{false, true} {
+		for _, b := range bigIntFamilies[0][:3] {
+			for _, f := range []int{0, 1, 2} {
+				add(spellBig(b, neg, f))
+			}
+		}
+		add(spellBig(bigIntFamilies[0][0], neg, 4))
+		for _, b := range bigIntFamilies[1][:2] {
+			add(spellBig(b, neg, 0))
+			add(spellBig(b, neg, 1))
+		}
+		for _, b := range bigIntFamilies[2][:2] {
+			add(spellBig(b, neg, 0))
+			add(spellBig(b, neg, 4))
+		}
+		add(spellBig(bigIntFamilies[2][0], neg, 1))
+	}
+	return append(out, "0", "1e18x")
+}
+
+// beyond2p53: does the key set hold two different spellings of integers beyond
+// 2^53 that round to the same float64 (label only)?
+func beyond2p53(keys []string) bool {
+	seen := map[float64]bool{}
+	for _, k := range keys {
+		if v, ok := numberOf(k); ok && (v >= 1<<53 || v <= -(1<<53)) {
+			if seen[v] {
+				return true
+			}
+			seen[v] = true
+		}
+	}
+	return false
 }
 
 // alphabet from which no calendar name can be spelled
@@ -255,6 +358,7 @@ func genDates(t *rapid.T, n int, layout string) []string {
 const (
 	kMixed      = "mixed"      // anything with anything
 	kNumbers    = "numbers"    // number spellings only
+	kBigNumbers = "big-numbers" // integers beyond 2^53 a few units apart, plain and with fraction / exponent (classified as numbers)
 	kWeekdays   = "weekdays"   // weekday names, aliases, case variants
 	kMonths     = "months"     // month names, aliases, case variants
 	kNonMembers = "nonmembers" // no calendar name: numbers, text, dates, words
@@ -296,6 +400,15 @@ func genKeySet(t *rapid.T, kind string, maxN int) ([]string, string) {
 	case kNumbers:
 		for i := 0; i < n; i++ {
 			raw = append(raw, genNumber(t))
+		}
+	case kBigNumbers:
+		fam := rapid.IntRange(0, len(bigIntFamilies)-1).Draw(t, "family")
+		for i := 0; i < n; i++ {
+			if rapid.IntRange(0, 5).Draw(t, "otherNumber") == 0 {
+				raw = append(raw, genNumber(t))
+				continue
+			}
+			raw = append(raw, genBigNumber(t, fam))
 		}
 	case kWeekdays:
 		for i := 0; i < n; i++ {
@@ -362,7 +475,7 @@ var modifiers = []string{"", "", ":asc", ":desc", ":reverse"}
 func kindsFor(mode string) []string {
 	switch mode {
 	case "contextual":
-		ks := []string{kWeekdays, kWeekdays, kMonths, kMonths, kNonMembers, kNonMembers, kNumbers, kWords}
+		ks := []string{kWeekdays, kWeekdays, kMonths, kMonths, kNonMembers, kNonMembers, kNumbers, kBigNumbers, kWords}
 		if known(kfContextual) {
 			pbt.Exclude("contextual sort of calendar names mixed with other keys (known finding " + kfContextual + ")")
 		} else {
@@ -383,7 +496,7 @@ func kindsFor(mode string) []string {
 		}
 		return ks
 	}
-	return []string{kMixed, kMixed, kMixed, kNumbers, kNumbers, kNonMembers, kWeekdays, kMonths, kDates, kWords}
+	return []string{kMixed, kMixed, kMixed, kNumbers, kNumbers, kBigNumbers, kNonMembers, kWeekdays, kMonths, kDates, kWords}
 }
 
 // classifyKeys recomputes the kind of a key set from the keys alone (so that
